@@ -62,16 +62,21 @@ where
   where
     S: Decode<DA::Decoded> + Clone,
   {
-    match self
-      .keyed_simpledatareader
-      .try_take_one_with(DecodeWrapper::new(decoder))
-    {
-      Err(e) => Err(e),
-      Ok(None) => Ok(None),
-      Ok(Some(kdcc)) => match DeserializedCacheChange::<D>::from_keyed(kdcc) {
-        Some(dcc) => Ok(Some(dcc)),
-        None => Ok(None),
-      },
+    loop {
+      match self
+        .keyed_simpledatareader
+        .try_take_one_with(DecodeWrapper::new(decoder.clone()))
+      {
+        Err(e) => return Err(e),
+        Ok(None) => return Ok(None),
+        Ok(Some(kdcc)) => match DeserializedCacheChange::<D>::from_keyed(kdcc) {
+          Some(dcc) => return Ok(Some(dcc)),
+          // A dispose has no meaning on a NoKey topic. Skip it and try the next
+          // change, because returning None here would claim that there is
+          // nothing more to take.
+          None => continue,
+        },
+      }
     }
   }
 
